@@ -35,7 +35,7 @@ Proof.
   intros Hf Hx Hy. expose_state s Hf. unfold word in *.
   unfold calculate_SUB, f_SUB, bin, flag, fits16s, sgn16.
   destruct bc, bcb; msimpl; norm_words;
-    rewrite to_u16_word by lia; msimpl; norm_words; msimpl; bsimpl;
+    rewrite to_u16_val by lia; msimpl; norm_words; msimpl; bsimpl;
     rewrite ?Z.mod_mod by lia; st_eq.
 Qed.
 
